@@ -33,6 +33,10 @@ pub struct Case {
     /// call with status value number `status` of `drivers::status_value`
     #[serde(default)]
     pub fault: u8,
+    /// sizes: 0 as usual; 1 the seeded credential's user handle and the new user's id are 900 bytes
+    /// (responses beyond 1 KiB); 2 the same with 4000 bytes
+    #[serde(default)]
+    pub big: u8,
 }
 
 const RP: &str = "example.com";
@@ -54,19 +58,25 @@ pub fn cases(tier: Tier) -> Vec<Case> {
                         continue;
                     }
                     let api = if c.op == Op::Make { "make_credential" } else { "get_assertion" };
-                    v.push(Case { api: api.into(), cfg: c.clone(), content, memory_store, prf, unknown_type: false, empty_list: false, fault: 0 });
+                    v.push(Case { api: api.into(), cfg: c.clone(), content, memory_store, prf, unknown_type: false, empty_list: false, fault: 0, big: 0 });
                     // store failures with every status value of the menu, for the configurations in
                     // which the user consents and a matching credential exists / none is excluded
                     if !memory_store && !prf && c.outcome == 3 && c.cap == 2 && !c.pin && c.up && matches!(content, Content::MatchViaList | Content::NoMatch) {
                         for fault in 1..=21u8 {
-                            v.push(Case { api: api.into(), cfg: c.clone(), content, memory_store, prf, unknown_type: false, empty_list: false, fault });
+                            v.push(Case { api: api.into(), cfg: c.clone(), content, memory_store, prf, unknown_type: false, empty_list: false, fault, big: 0 });
+                        }
+                    }
+                    // large user handles / ids: the response grows beyond 1 KiB and 4 KiB
+                    if !prf && c.outcome == 3 && c.cap == 2 && !c.pin && c.up && matches!(content, Content::MatchViaList | Content::MatchNoList | Content::NoMatch) {
+                        for big in 1..3u8 {
+                            v.push(Case { api: api.into(), cfg: c.clone(), content, memory_store, prf, unknown_type: false, empty_list: false, fault: 0, big });
                         }
                     }
                     if matches!(content, Content::NoMatch | Content::MatchNoList | Content::TwoNoList) {
-                        v.push(Case { api: api.into(), cfg: c.clone(), content, memory_store, prf, unknown_type: false, empty_list: true, fault: 0 });
+                        v.push(Case { api: api.into(), cfg: c.clone(), content, memory_store, prf, unknown_type: false, empty_list: true, fault: 0, big: 0 });
                     }
                     if matches!(content, Content::MatchViaList | Content::OtherRpOnly | Content::TwoViaList) && !prf {
-                        v.push(Case { api: api.into(), cfg: c.clone(), content, memory_store, prf, unknown_type: true, empty_list: false, fault: 0 });
+                        v.push(Case { api: api.into(), cfg: c.clone(), content, memory_store, prf, unknown_type: true, empty_list: false, fault: 0, big: 0 });
                     }
                 }
             }
@@ -77,7 +87,7 @@ pub fn cases(tier: Tier) -> Vec<Case> {
             for memory_store in [false, true] {
                 for prf in [false, true] {
                     let cfg = C04Case { op: Op::Get, rk: false, up: true, uv: false, cap, presence_cap, outcome: 3, pin: false, arc_mutex: false, level: 0, uvreq: 0, ext: false, wire: 0, flip: false };
-                    v.push(Case { api: "get_info".into(), cfg, content: Content::NoMatch, memory_store, prf, unknown_type: false, empty_list: false, fault: 0 });
+                    v.push(Case { api: "get_info".into(), cfg, content: Content::NoMatch, memory_store, prf, unknown_type: false, empty_list: false, fault: 0, big: 0 });
                 }
             }
         }
@@ -86,7 +96,17 @@ pub fn cases(tier: Tier) -> Vec<Case> {
 }
 
 fn seeds(content: Content) -> (Vec<Passkey>, Option<Vec<Vec<u8>>>) {
-    let own = seeded(&Seed { n: 1, rp: RP.into(), handle: Some(vec![1, 2, 3]), counter: Some(5), hmac: Some(true) });
+    seeds_sized(content, 0)
+}
+fn big_len(big: u8) -> usize {
+    match big {
+        1 => 900,
+        2 => 4000,
+        _ => 3,
+    }
+}
+fn seeds_sized(content: Content, big: u8) -> (Vec<Passkey>, Option<Vec<Vec<u8>>>) {
+    let own = seeded(&Seed { n: 1, rp: RP.into(), handle: Some(if big == 0 { vec![1, 2, 3] } else { vec![0x31; big_len(big)] }), counter: Some(5), hmac: Some(true) });
     let other = seeded(&Seed { n: 2, rp: "other.org".into(), handle: Some(vec![1, 2, 3]), counter: Some(5), hmac: None });
     let own2 = seeded(&Seed { n: 3, rp: RP.into(), handle: Some(vec![4, 5]), counter: Some(9), hmac: Some(false) });
     match content {
@@ -161,7 +181,8 @@ where
         }
         "make_credential" => {
             let ext = c.prf.then(|| make_credential::ExtensionInputs { hmac_secret: Some(true), hmac_secret_mc: None, prf: Some(prf()) });
-            let mut req = mc_request(RP, &[9, 9], list, cfg.rk, cfg.up, cfg.uv, cfg.pin, ext);
+            let uid: Vec<u8> = if c.big == 0 { vec![9, 9] } else { vec![0x39; big_len(c.big)] };
+            let mut req = mc_request(RP, &uid, list, cfg.rk, cfg.up, cfg.uv, cfg.pin, ext);
             if c.unknown_type {
                 for d in req.exclude_list.iter_mut().flatten() {
                     d.ty = passkey_types::webauthn::PublicKeyCredentialType::Unknown;
@@ -205,7 +226,7 @@ where
 }
 
 fn observe(c: &Case, via_trait: bool) -> Obs {
-    let (items, list) = seeds(c.content);
+    let (items, list) = seeds_sized(c.content, c.big);
     let list = if c.empty_list { Some(vec![]) } else { list };
     let log = Log::new();
     if c.fault != 0 {
@@ -453,7 +474,7 @@ pub fn run(ctx: &Ctx) -> Result<Run, String> {
     }
     let mut run = Run::from_stats(
         "model_checking",
-        "differential enumeration: every configuration of the C04 product at CTAP2 level (operation, rk/up/uv, verification capability, validation outcome, pin-auth) x 4 store contents x {contract store, Arc<Mutex<MemoryStore>>} x PRF extension on/off x descriptor type {public-key, unknown}, store failures of find / save / update with seven status *values* (incl. Ctap1(Success), which shares byte 0x00 with Ctap2(Ok)), and getInfo for every capability combination, plus all pairs (thorough: triples) of operations on ONE authenticator with a capability change in between (verification / presence / store capability), each run once through the inherent method and once through <Authenticator as Ctap2Api> on identically seeded authenticators inside isolated worker processes (8 MiB stack, 30 s watchdog); compared: result (status byte or full response incl. RFC 6979 signature bytes; fresh ids/keys normalised), store snapshot, store/user-validation call log. Non-trivial = distinct case whose direct call reached a verdict",
+        "differential enumeration: every configuration of the C04 product at CTAP2 level (operation, rk/up/uv, verification capability, validation outcome, pin-auth) x 4 store contents x {contract store, Arc<Mutex<MemoryStore>>} x PRF extension on/off x descriptor type {public-key, unknown}, store failures of find / save / update with seven status *values* (incl. Ctap1(Success), which shares byte 0x00 with Ctap2(Ok)), user handles / user ids of 900 and 4000 bytes (responses beyond 1 KiB / 4 KiB), and getInfo for every capability combination, plus all pairs (thorough: triples) of operations on ONE authenticator with a capability change in between (verification / presence / store capability), each run once through the inherent method and once through <Authenticator as Ctap2Api> on identically seeded authenticators inside isolated worker processes (8 MiB stack, 30 s watchdog); compared: result (status byte or full response incl. RFC 6979 signature bytes; fresh ids/keys normalised), store snapshot, store/user-validation call log. Non-trivial = distinct case whose direct call reached a verdict",
         true,
         stats,
     );
